@@ -390,8 +390,7 @@ func (r *throttleLateRunner) Do(op []string) string {
 // one P, a second timer (the harness's own) due 1 ms after the debounce timer, and the runner spins past both
 // deadlines: when it finally blocks the scheduler expires both timers in one pass and runs the goroutine created LAST
 // first -- that one calls cancel() (or debounces again) and completes before f starts.  The verdict needs no clock for
-// `latecancel` (an atomic flag set strictly after cancel() returned); for `latecall` the gap is measured from a reading
-// taken AFTER the newer call returned to a reading taken at the START of f, so a gap below `wait` is unambiguous.
+// `latecancel` (an atomic flag set strictly after cancel() returned); for `latecall` see the comment at the callback.
 type debounceLateRunner struct{ wait int }
 
 func (r *debounceLateRunner) Do(op []string) string {
@@ -426,15 +425,19 @@ func (r *debounceLateRunner) Do(op []string) string {
 				return "ran " + itoa(trial)
 			}
 		case "latecall":
-			var lastReturned, early atomic.Int64
+			// sound whatever the scheduling: `now >= rt` (rt read after the newer call returned) shows that the function
+			// started after the newer call had returned; the newer call's own function cannot start before
+			// rt0 + wait (rt0 read before that call was made), so a start below rt0 + wait is the older function
+			var lastBefore, lastReturned, early atomic.Int64
 			cb := func() {
 				now := int64(time.Since(start))
-				if rt := lastReturned.Load(); rt != 0 && now >= rt && time.Duration(now-rt) < wait {
+				if rt := lastReturned.Load(); rt != 0 && now >= rt && time.Duration(now-lastBefore.Load()) < wait {
 					early.Store(now - rt + 1)
 				}
 			}
 			debounce(cb)
 			time.AfterFunc(wait+time.Millisecond, func() {
+				lastBefore.Store(int64(time.Since(start)))
 				debounce(cb)
 				lastReturned.Store(int64(time.Since(start)))
 			})
